@@ -77,3 +77,40 @@ pub fn trunc(s: &str, n: usize) -> String {
         format!("{}…", &s[..e])
     }
 }
+
+use std::io::Write;
+use std::sync::Mutex;
+
+static OUT: Mutex<Option<std::fs::File>> = Mutex::new(None);
+
+/// parol prints diagnostics (resolved conflicts, ...) with println!.  The harness moves the real
+/// stdout to a private descriptor and points fd 1 to /dev/null, so only the harness's own report
+/// reaches the caller's stdout.
+pub fn capture_stdout() {
+    use std::os::fd::FromRawFd;
+    unsafe {
+        let saved = libc::dup(1);
+        let null = libc::open(c"/dev/null".as_ptr(), libc::O_WRONLY);
+        if saved >= 0 && null >= 0 {
+            libc::dup2(null, 1);
+            libc::close(null);
+            *OUT.lock().unwrap() = Some(std::fs::File::from_raw_fd(saved));
+        }
+    }
+}
+
+pub fn out_line(s: &str) {
+    let mut g = OUT.lock().unwrap();
+    match g.as_mut() {
+        Some(f) => {
+            let _ = writeln!(f, "{s}");
+            let _ = f.flush();
+        }
+        None => println!("{s}"),
+    }
+}
+
+#[macro_export]
+macro_rules! out {
+    ($($arg:tt)*) => { $crate::util::out_line(&format!($($arg)*)) };
+}
